@@ -87,7 +87,7 @@ Definition ex_mod : list mev :=
 Definition ex_items : list (list N) := [[11; 12]; []; [21; 22]; []; []; []; [31]; []; []; []; []].
 (* a module that round-trips *)
 Example C02_case_holds :
-  let c := mkRCase false ex_mod OOk OOk true true ex_items ex_items [(0, 0, 0, 5); (1, 0, 0, 6); (1, 1, 0, 7)] [(0, 0, 0, 5); (1, 0, 0, 6); (1, 1, 0, 7)]
+  let c := mkRCase false ex_mod OOk OOk true true ex_items ex_items [[5]; [6; 7]] [[5]; [6; 7]]
                    [(3, 4)] [(3, 4)] [(VI32, Some VI32); (VRef true (HAbs false AFunc), Some (VRef true (HAbs false AFunc)))] in
   agree02 c = true /\ pred_parse c = OOk /\ d10_in c = false /\ holds02 c = true.
 Proof. vm_compute. repeat split; reflexivity. Qed.
